@@ -25,7 +25,7 @@ from .. import q
 from ..cfg import explore, must_facts, canon_fact, holds
 from ..mutate import mutate, remove_stmts, replace_stmt, replace_expr, parse_stmt, parse_expr
 from ..model import AnalysisError
-from ..x_scope import own_nodes
+from ..x_scope import own_nodes, strip_annotations
 from ..x_flow import expanded_facts, resolve_local, unique_def, concrete_paths
 
 TECHNIQUE = "syntactic timedelta lint with guard dominance on the CFG + exhaustive constant folding of the phrase arithmetic + idiom check of the digit-grouping loop"
@@ -108,9 +108,24 @@ def rule_seconds(ck, fi):
 def _phrase_returns(fi):
     """(cfg node, unit, number-expr) for `return _("1 unit ago", "...", N) % {...}`."""
     out = []
+    pm = q.parent_map(fi.node)
+
+    def prev_binding(ret, name):
+        """value bound to ``name`` by the statement directly before ``ret`` in the same block (a per-branch temporary)"""
+        par = pm.get(ret)
+        for fld in ("body", "orelse", "finalbody"):
+            blk = getattr(par, fld, None)
+            if isinstance(blk, list) and ret in blk:
+                i = blk.index(ret)
+                if i > 0 and isinstance(blk[i - 1], ast.Assign) and len(blk[i - 1].targets) == 1 and isinstance(blk[i - 1].targets[0], ast.Name) and blk[i - 1].targets[0].id == name:
+                    return blk[i - 1].value
+        return None
+
     for node in fi.cfg.stmt_nodes(lambda n: n.kind == "stmt" and isinstance(n.ast, ast.Return) and n.ast.value is not None):
         v = node.ast.value
         call = v.left if isinstance(v, ast.BinOp) and isinstance(v.op, ast.Mod) else v
+        if isinstance(call, ast.Name):
+            call = prev_binding(node.ast, call.id) or unique_def(fi, call.id) or call
         if isinstance(call, ast.Call) and len(call.args) == 3 and isinstance(call.args[0], ast.Constant) and isinstance(call.args[0].value, str):
             words = call.args[0].value.split()
             if len(words) == 3 and words[0] == "1" and words[2] == "ago":
@@ -148,6 +163,13 @@ def _closure(e, var):
     if isinstance(e, ast.Call) and isinstance(e.func, ast.Name) and e.func.id in ("round", "int") and len(e.args) == 1 and not e.keywords:
         o = _closure(e.args[0], var)
         return (lambda s: round(o(s))) if e.func.id == "round" else (lambda s: int(o(s)))
+    if isinstance(e, ast.Call) and isinstance(e.func, ast.Name) and e.func.id in ("max", "min") and len(e.args) >= 2 and not e.keywords:
+        fs = [_closure(a, var) for a in e.args]
+        pick = max if e.func.id == "max" else min
+        return lambda s: pick(f(s) for f in fs)
+    if isinstance(e, ast.Call) and isinstance(e.func, ast.Name) and e.func.id in ("abs", "float") and len(e.args) == 1 and not e.keywords:
+        o = _closure(e.args[0], var)
+        return (lambda s: abs(o(s))) if e.func.id == "abs" else (lambda s: float(o(s)))
     if isinstance(e, ast.Compare) and len(e.ops) == 1 and type(e.ops[0]) in _CMP:
         f, l, r = _CMP[type(e.ops[0])], _closure(e.left, var), _closure(e.comparators[0], var)
         return lambda s: f(l(s), r(s))
@@ -198,7 +220,7 @@ def _phrases_in(ck, fd, fi, S, call_node, fd_facts):
 
             class T(ast.NodeTransformer):
                 def visit_Name(self, nm):
-                    if nm.id == S or nm.id in ("round", "int", "float"):
+                    if nm.id == S or nm.id in ("round", "int", "float", "max", "min", "abs", "divmod"):
                         return nm
                     if nm.id in zero_days:
                         return ast.Constant(value=0)
@@ -224,7 +246,7 @@ def _phrases_in(ck, fd, fi, S, call_node, fd_facts):
                       construct="unit %s number %s" % (unit, q.unparse(probe)))
                 continue
             raise
-        extra = q.names_in(e) - {S, "round", "int", "float"}
+        extra = q.names_in(e) - {S, "round", "int", "float", "max", "min", "abs"}
         if extra:
             raise AnalysisError("number expression %s of the %s phrase mentions %s besides the seconds count" % (q.unparse(e), unit, sorted(extra)))
         # admissible seconds: all dominating comparisons that mention only S
@@ -657,6 +679,7 @@ def rule_utc(ck, fi):
 
 
 def run(ck):
+    ck.repo = strip_annotations(ck.repo, F)
     ck.rule("C46.same-time-scale", "timestamps, naive datetimes and now() are all put on the UTC scale explicitly before they are compared")
     ck.rule("C46.seconds-with-days", "timedelta.seconds (within-day remainder) is used as a duration only where the same timedelta's days are known to be 0, or together with .days")
     ck.rule("C46.future-full-format", "a future date is clamped to now (only under a recognised bound of at most 60 s) or forces the full format before the elapsed time is computed")
@@ -711,6 +734,7 @@ def _double_rounding(root):
 
 MUTANTS = [
     ("seeded C46-adv1: hours computed from already-rounded minutes", _m("format_date", _double_rounding), "C46.phrase-unit"),
+    ("seeded C46-adv4: minutes by floor division with a floor of one", _m("format_date", replace_expr(lambda n: isinstance(n, ast.Call) and _src(n) == "round(seconds / 60.0)", lambda n: parse_expr("max(1, seconds // 60)"))), "C46.phrase-unit"),
     ("minutes truncated instead of rounded", _m("format_date", replace_expr(lambda n: isinstance(n, ast.Call) and _src(n) == "round(seconds / 60.0)", lambda n: parse_expr("int(seconds / 60.0)"))), "C46.phrase-unit"),
     ("hours by floor division", _m("format_date", replace_expr(lambda n: isinstance(n, ast.Call) and _src(n) == "round(seconds / (60.0 * 60))", lambda n: parse_expr("seconds // 3600"))), "C46.phrase-unit"),
     ("seeded C46-adv2: aware datetimes in other zones re-labelled as UTC", _m("format_date", replace_expr(lambda n: isinstance(n, ast.Compare) and _src(n) == "date.tzinfo is None", lambda n: parse_expr("date.tzinfo is not datetime.timezone.utc"))), "C46.same-time-scale"),
